@@ -4,7 +4,7 @@
 //!
 //!   mopen <hex>     write the bytes to a file, `map::Reader::open`, call everything it exposes
 #![allow(dead_code)]
-use crate::domains::d_datafile::{compress, df_err_name, Comp, Image, Item};
+use crate::domains::d_datafile::{compress, df_err_name, tune_malloc, Comp, Image, Item};
 use crate::util::*;
 use libtw2_map::format as mf;
 use libtw2_map::reader as mr;
@@ -761,6 +761,7 @@ fn emit_map(out: &mut dyn Write, g: &MapGen, rng: &mut Rng) {
 
 impl Domain for D {
     fn gen(&self, tier: &str, seed: u64, out: &mut dyn Write) {
+        tune_malloc();
         let mut rng = Rng::new(seed ^ 0x3a9);
         let thorough = tier != "quick";
         let (n_maps, n_sys) = if thorough { (6000, 30) } else { (500, 3) };
@@ -858,6 +859,7 @@ impl Domain for D {
         }
     }
     fn runner(&self) -> Box<dyn Runner> {
+        tune_malloc();
         Box::new(R { dir: run_dir() })
     }
 }
